@@ -69,13 +69,11 @@ RECURSIVE Strip(_,_)
 Strip(t, ncg) == IF t.op \in {"opt", "atom"} \/ (t.op = "cat" /\ Len(t.kids) = 1) \/ (ncg /\ t.op = "grp" /\ t.nm = "")
                  THEN Strip(t.kids[1], ncg) ELSE t
 
-\* the C01 fragment: no quantifier operand is (reducible to) a quantified item - the reducer multiplies directly nested
-\* quantifiers, which keeps the language but not the priority order.  Nullable operands are inside the fragment: the
-\* engine's empty-iteration rule is part of RegexSem (loop frames).
-RECURSIVE InFragment(_,_)
-InFragment(t, ncg) ==
-  /\ \A j \in 1..Len(t.kids) : InFragment(t.kids[j], ncg)
-  /\ t.op = "rep" => Strip(t.kids[1], ncg).op # "rep"
+\* the C01 fragment is the whole documented syntax.  (Two exclusions of earlier rounds are gone: nullable quantifier operands -
+\* the engine's empty-iteration rule is part of RegexSem - and directly nested quantifiers, which the reducer multiplies,
+\* keeping the language but not the priority order: that deviation is now a listed finding, attributed through the gate
+\* no-loop-multiplication, instead of a hole in the domain.)
+InFragment(t, ncg) == TRUE
 
 \* ---------------------------------------------------------------- indexed-sequence combinators
 Map1(f(_), A)       == [i \in 1..Len(A) |-> f(A[i])]
